@@ -221,7 +221,8 @@ def run_check(pid, tier, seed):
 
     # 1. pinned regression cases and pinned cases of open findings (strict)
     pinned_count = 0
-    for label, case in getattr(mod, "PINNED", []):
+    pinned = [] if os.environ.get("FSV_SKIP_PINNED") else getattr(mod, "PINNED", [])   # sensitivity runs only
+    for label, case in pinned:
         out = mod.check(case)
         pinned_count += 1
         total.record(case, out, open_sigs, max_samples=0)
